@@ -682,6 +682,7 @@ class SearchRun:
             st.tags['search_inner_head'] = key
             self.visits = getattr(self, 'visits', 0) + 1
             st.tags['search_visit'] = self.visits     # one analysed iteration per path reaching the inner loop head
+            st.tags['last_next'] = None
 
 
 _ASSIGNED = {}
@@ -1033,11 +1034,12 @@ def check_argmin_steps(res, qz, run, outs, vin, inst0, where):
                 # inner scan finished, or the pitch class of this candidate is disabled: nothing may change
                 res.ob('R-ARGMIN', inst + '|%s leaves the best candidate and its distance alone' % ('end of the pitch-class scan' if not to_inner else 'disabled pitch class'),
                        same_best and same_dist, 'best %r -> %r, distance %r -> %r' % (best0, b1.term, dist0, d1.term), where, key='R-ARGMIN:keep:%s:%d' % (inst0, n))
-                if not to_inner and en is not None:
-                    # this path tested whether the candidate is enabled - so the iterator had NOT run out - and then left the
-                    # pitch-class scan (a `break`): the rest of the octave is skipped, which is only sound after the last pitch
-                    # class or once the scan has passed the nearest candidate (ascending order: everything later is farther).
-                    # (A `break` placed before the enabled test is not recognised by this rule.)
+                ln = o.state.tags.get('last_next')
+                if not to_inner and (ln == 'some' or (ln is None and en is not None)):
+                    # the iterator driving the pitch-class scan yielded a candidate on this path (or, for a hand-written counter
+                    # loop, the candidate's enabled bit was tested) - so the scan had NOT run out - and then the scan was left
+                    # (a `break`): the rest of the octave is skipped, which is only sound after the last pitch class or once
+                    # the scan has passed the nearest candidate (ascending order: everything later is farther)
                     last = ctx.decide(cmp_term('Ge', pc, 11)) is True
                     passed = _abs_cmp(ctx, 'Ge', d, dist0) and _abs_cmp(ctx, 'Ge', d, Poly.const(H)) and ctx.decide(cmp_term('Ge', c, vin)) is True
                     res.ob('R-ARGMIN', inst + '|the pitch-class scan is abandoned only after its last candidate or past the nearest one', last or passed,
